@@ -32,6 +32,7 @@ func c06(c *Ctx) {
 	sDurableElect(c, "R10/S-DURABLE")
 	sState(c, "R8/S-STATE")
 	effectFree(c, "R7", "(*Raft).requestPreVote", "change term, vote, role, leader, contact or any store", 4, stateChanging)
+	sStoreWriters(c, "R12/S-WRITERS")
 }
 
 // voteGuardTracks builds the tracks shared by requestVote / requestPreVote.
